@@ -33,10 +33,27 @@ def ref_join(base, arg):
     return ''.join('/' + c for c in comps)
 
 
+ASYNC_KINDS = {'amem': 'mem', 'aalt': 'alt', 'aovl': 'ovl', 'aovl3': 'ovl3', 'aaltovl': 'altovl', 'aovlalt': 'ovlalt'}
+
+
 def gen_script(rng, nops=14, kinds=None, tag=''):
+    kind = rng.choice(kinds or ['mem', 'mem', 'alt', 'ovl', 'ovl', 'ovl3', 'altovl', 'ovlalt'])
+    if kind in ASYNC_KINDS:
+        # the same generator, run through the async API: filesystem kinds are renamed, unsupported ops dropped
+        L = _gen_script(rng, nops, ASYNC_KINDS[kind], tag, async_mode=True)
+        out = []
+        for l in L:
+            t = l.split()
+            if t[0] == 'fs':
+                t[2] = {'mem': 'amem', 'alt': 'aalt', 'ovl': 'aovl'}[t[2]]
+            out.append(' '.join(t))
+        return out
+    return _gen_script(rng, nops, kind, tag)
+
+
+def _gen_script(rng, nops, kind, tag, async_mode=False):
     L = []
     strs = {'R': ''}
-    kind = rng.choice(kinds or ['mem', 'mem', 'alt', 'ovl', 'ovl', 'ovl3', 'altovl', 'ovlalt'])
     vars_ = []
 
     def newvar():
@@ -129,6 +146,8 @@ def gen_script(rng, nops=14, kinds=None, tag=''):
                          'metadata', 'read_dir', 'read', 'read_to_string', 'walk_dir', 'is_file', 'is_dir',
                          'create_dir_all', 'remove_dir_all', 'copy_file', 'move_file', 'copy_dir', 'move_dir',
                          'set_time', 'times', 'filename', 'extension', 'parent', 'eq', 'is_root', 'handle'])
+        if async_mode and op in ('set_time', 'times', 'extension', 'eq'):
+            continue
         if op == 'remove_dir_all' and 'ovl' in kind and strs[p] == '':
             continue      # removing the overlay root creates markers while iterating: outcome depends on hash order
         if op in ('write', 'append'):
@@ -158,7 +177,7 @@ def gen_script(rng, nops=14, kinds=None, tag=''):
                 if mode == 'open':
                     c = rng.choice(['hread', 'hseek', 'hread'])
                 else:
-                    c = rng.choice(['hwrite', 'hseek', 'hflush', 'hwrite'])
+                    c = rng.choice(['hwrite', 'hseek', 'hflush', 'hwrite'] if not async_mode else ['hwrite', 'hflush'])
                 if c == 'hread':
                     L.append('?%s hread %s %d' % (h, h, rng.choice([0, 1, 2, 3])))
                 elif c == 'hwrite':
@@ -205,7 +224,7 @@ def resolve_guards(lines, native_out_fn):
     return res
 
 
-def run_selftest(prog, seed, nscripts, nops=14, kinds=None, verbose=False):
+def run_selftest(prog, seed, nscripts, nops=14, kinds=None, verbose=False, profile='dev'):
     """-> (n_scripts, n_lines, mismatches list)"""
     rng = random.Random(seed)
     scripts = []
@@ -215,9 +234,9 @@ def run_selftest(prog, seed, nscripts, nops=14, kinds=None, verbose=False):
     joined = []
     for s in scripts:
         joined += s + ['reset']
-    joined = resolve_guards(joined, lambda t: run_native(t))
+    joined = resolve_guards(joined, lambda t: run_native(t, profile=profile))
     text = '\n'.join(joined)
-    nat = run_native(text)
+    nat = run_native(text, profile=profile)
     # engine: one path per script block (concrete inputs: no forks expected)
     blocks, cur = [], []
     for l in joined:
